@@ -12,6 +12,9 @@
 #include <string.h>
 #include <time.h>
 #include <unistd.h>
+#include <dlfcn.h>
+#include <sys/syscall.h>
+#include <sys/uio.h>
 
 static int vsim_fd(void) {
   static int fd = -2;
@@ -25,7 +28,7 @@ static int request(const char* line) {
   int fd = vsim_fd();
   if (fd < 0) { errno = ENOSYS; return -1; }
   size_t n = strlen(line), off = 0;
-  while (off < n) { ssize_t w = write(fd, line + off, n - off); if (w < 0) { if (errno == EINTR) continue; return -1; } off += (size_t)w; }
+  while (off < n) { ssize_t w = syscall(SYS_write, fd, line + off, n - off); if (w < 0) { if (errno == EINTR) continue; return -1; } off += (size_t)w; }
   char c = 0;
   for (;;) { ssize_t r = read(fd, &c, 1); if (r == 1) break; if (r == 0) _exit(97); if (errno != EINTR) return -1; }
   if (c == 'K') return 0;
@@ -54,7 +57,7 @@ int sem_unlink(const char* name) { char b[256]; snprintf(b, sizeof b, "U %s\n", 
 int sem_getvalue(sem_t* s, int* v) {
   (void)s; int fd = vsim_fd(); if (fd < 0) { errno = ENOSYS; return -1; }
   const char* line = "G\n"; size_t off = 0;
-  while (off < 2) { ssize_t w = write(fd, line + off, 2 - off); if (w < 0) { if (errno == EINTR) continue; return -1; } off += (size_t)w; }
+  while (off < 2) { ssize_t w = syscall(SYS_write, fd, line + off, 2 - off); if (w < 0) { if (errno == EINTR) continue; return -1; } off += (size_t)w; }
   unsigned char b[5]; size_t got = 0;
   while (got < 5) { ssize_t r = read(fd, b + got, 5 - got); if (r > 0) { got += (size_t)r; if (b[0] != 'V') break; } else if (r == 0) _exit(97); else if (errno != EINTR) return -1; }
   if (b[0] != 'V') { errno = EINVAL; return -1; }
@@ -64,3 +67,34 @@ int sem_getvalue(sem_t* s, int* v) {
 
 /* markers used by the quick-tier driver: section entry / exit and intermediate steps (each is a scheduling point) */
 void vsim_marker(const char* what) { char b[64]; snprintf(b, sizeof b, "M %s\n", what); request(b); }
+
+/* The resource the lock protects: every access of the process to src/targets.lst (open for reading or writing, write, close = flush) is
+ * announced to the simulator BEFORE it is performed; the simulator checks that the process holds the semaphore at that instant, and each
+ * announcement is a scheduling point inside the protected section of the real mfront. */
+static int reg_fd = -1; static FILE* reg_file = NULL;
+static int is_registry(const char* path) { size_t n = path ? strlen(path) : 0; return n >= 11 && strcmp(path + n - 11, "targets.lst") == 0; }
+static FILE* open_common(const char* sym, const char* path, const char* mode) {
+  typedef FILE* (*fn_t)(const char*, const char*);
+  fn_t real_fn = (fn_t)dlsym(RTLD_NEXT, sym);
+  const int reg = vsim_fd() >= 0 && is_registry(path);
+  if (reg) vsim_marker((mode && (strchr(mode, 'w') || strchr(mode, 'a') || strchr(mode, '+'))) ? "REGOPENW" : "REGOPENR");
+  FILE* f = real_fn(path, mode);
+  if (reg && f) { reg_file = f; reg_fd = fileno(f); }
+  return f;
+}
+FILE* fopen(const char* path, const char* mode) { return open_common("fopen", path, mode); }
+FILE* fopen64(const char* path, const char* mode) { return open_common("fopen64", path, mode); }
+int fclose(FILE* f) {
+  typedef int (*fn_t)(FILE*);
+  static fn_t real_fn; if (!real_fn) real_fn = (fn_t)dlsym(RTLD_NEXT, "fclose");
+  if (f && f == reg_file) { vsim_marker("REGCLOSE"); reg_file = NULL; reg_fd = -1; }
+  return real_fn(f);
+}
+ssize_t write(int fd, const void* b, size_t n) {
+  if (fd >= 0 && fd == reg_fd) vsim_marker("REGWRITE");
+  return syscall(SYS_write, fd, b, n);
+}
+ssize_t writev(int fd, const struct iovec* v, int c) {
+  if (fd >= 0 && fd == reg_fd) vsim_marker("REGWRITE");
+  return syscall(SYS_writev, fd, v, c);
+}
